@@ -39,9 +39,19 @@ def handleArr (op : String) (a : Arr Int) (rest : List String) : Option String :
       some (showRes showArr (a.indicesAt l))
   | _, _ => none
 
+/-- Part 3: cases the model does not answer — arrays of more than 2^20 elements (`iota:<shape>` / `iota8:<shape>`, built by the
+harness from the shape), the soak over more than 65 536 distinct shapes (`soak`) and the closing line `oracle_validations`.
+The answer `native` tells the harness to judge them with its native reference (the defining sum / quotient in plain Rust),
+which the same run compares with the answers of THIS driver on every modelled case. -/
+def nativeCase (op : String) (k : String) : Bool :=
+  op == "soak" || op == "oracle_validations"
+    || (k.startsWith "iota:" && (parseNatList? (k.drop 5).toString).isSome)
+    || (k.startsWith "iota8:" && (parseNatList? (k.drop 6).toString).isSome)
+
 def handle (op : String) (args : List String) : Option String :=
   match args with
-  | a :: rest => do
+  | a :: rest =>
+    if nativeCase op a then some "native" else do
     let a ← parseArr? a
     handleArr op a rest
   | [] => none
@@ -57,6 +67,10 @@ partial def loopMemo (hin hout : IO.FS.Stream) (key : String) (arr : Option (Arr
     let op := match full.splitOn "." with
       | [_, op] => op
       | _ => full
+    if nativeCase op k then
+      hout.putStrLn "native"
+      loopMemo hin hout key arr
+    else
     let arr' := if k == key then arr else parseArr? k
     hout.putStrLn ((arr'.bind (fun a => handleArr op a rest)).getD "bad-op")
     loopMemo hin hout k arr'
